@@ -371,9 +371,10 @@ def edgeOnChange (env : Env) (e : Nat) (edge : ExpertEdge) : M Unit := do
     match (← get).value env edge.child with
     | none => pure ()
     | some v =>
-      tick
       let er ← getExpert e
-      logEv (.inv s!"cb" er.node [v] s!"d{edge.dep}")
+      if er.pk.isNone then
+        tick
+        logEv (.inv s!"cb" er.node [v] s!"d{edge.dep}")
       modExpert e fun x => { x with slots := (edge.dep, v) :: x.slots.filter (·.1 != edge.dep) }
 
 def runEdgeCallback (env : Env) (e : Nat) (childIndex : Nat) : M Unit := do
@@ -385,7 +386,7 @@ def runEdgeCallback (env : Env) (e : Nat) (childIndex : Nat) : M Unit := do
 
 def observabilityChange (e : Nat) (nowObservable : Bool) : M Unit := do
   let er ← getExpert e
-  logEv (.note s!"obschange n{er.node} {nowObservable}")
+  if er.pk.isNone then logEv (.note s!"obschange n{er.node} {nowObservable}")
   if !nowObservable then
     modExpert e fun x => { x with willFireAllCallbacks := true, numInvalidChildren := 0 }
 
